@@ -31,6 +31,12 @@ CONFIGS = {
     "adaptive_sp2": dict(converger=[1], sp2=[True, 1e-7]),
     "fixed_sp2": dict(converger=[0, 0.2], sp2=[True, 1e-7]),
     "adaptive_sp2_tight": dict(converger=[1], sp2=[True, 1e-9]),     # requested below the package's floor (1e-7 in float64): must behave like the floor, not worse
+    # the differentiable SCF modes (implicit backward = 1, unrolled = 2) run their own copies of the solver loops
+    "fixed0_bw2": dict(converger=[0, 0.0], scf_backward=2),
+    "fixed1_bw2": dict(converger=[0, 0.1], scf_backward=2),
+    "fixed6_bw1": dict(converger=[0, 0.6], scf_backward=1),
+    "adaptive_bw2": dict(converger=[1], scf_backward=2),
+    "pulay_bw1": dict(converger=[2], scf_backward=1),
     "uhf_singlet": dict(converger=[1], uhf=True),
     "uhf_singlet_fixed": dict(converger=[0, 0.3], uhf=True),
     # Krylov-subspace solver (known finding F29: energy-only stopping rule; finite electronic temperature 300 K ~ integer occupations for gaps > 2 eV)
@@ -40,7 +46,7 @@ CONFIGS = {
 
 def _run_cfg(names, method, eps, cfg, P0=None, coords=None):
     c = CONFIGS[cfg]
-    sp = esh.settings(method=method, eps=eps, converger=c["converger"], sp2=c.get("sp2"), uhf=c.get("uhf", False))
+    sp = esh.settings(method=method, eps=eps, converger=c["converger"], sp2=c.get("sp2"), uhf=c.get("uhf", False), **({"scf_backward": c["scf_backward"]} if c.get("scf_backward") else {}))
     return esh.run_named(names, sp, P0=P0, coords=coords)
 
 
@@ -142,6 +148,31 @@ def probe_tightening(inp: Dict[str, Any]) -> Dict[str, Any]:
 PROBES = {"solver_pair": probe_solver_pair, "tightening": probe_tightening, "sp2_ladder": probe_sp2_ladder}
 
 
+def probe_sp2_vs_diag(inp: Dict[str, Any]) -> Dict[str, Any]:
+    """density purification against diagonalisation on the SAME SCF problem, at the accuracy the purification tolerance buys: on the unchanged package the
+    two differ by at most 11 x tolerance over the whole grid of this probe (energy, forces, charges); the bound is 25 x max(tolerance, scf_eps)"""
+    nm, meth = inp["name"], inp["method"]
+    ref = esh.run_named([nm], esh.settings(method=meth, eps=1e-10, converger=inp["converger"]))
+    bad = []
+    worst = 0.0
+    for tol in inp["tols"]:
+        r = esh.run_named([nm], esh.settings(method=meth, eps=1e-10, converger=inp["converger"], sp2=[True, tol]))
+        if np.asarray(r["notconverged"]).any() or np.asarray(ref["notconverged"]).any():
+            continue
+        dE = abs(float(r["Etot"][0] - ref["Etot"][0]))
+        dF = float(np.abs(r["force"] - ref["force"]).max())
+        dq = float(np.abs(r["q"] - ref["q"]).max())
+        ratio = max(dE, dF, dq) / max(tol, 1e-10)
+        worst = max(worst, ratio)
+        if ratio > 25.0:
+            bad.append(f"sp2 tolerance {tol:.0e}: |dE| {dE:.2e} |dF| {dF:.2e} |dq| {dq:.2e} = {ratio:.0f} x tolerance away from the diagonalisation result")
+    return {"ok": not bad, "observed": bad or [f"worst {worst:.1f} x tolerance"], "expected": "SP2 = diagonalisation within a small multiple of the purification tolerance",
+            "predicate": "max(|dE|, |dF|, |dq|) <= 25 x tolerance", "fields": {"kinds": ["sp2_vs_diag"] if bad else [], "method": meth, "molecule": nm}}
+
+
+PROBES["sp2_vs_diag"] = probe_sp2_vs_diag
+
+
 def gen_cases(ctx: Ctx):
     rng = ctx.rng
     pool = ["h2o", "nh3", "ch4", "ch2o", "hcn", "hf", "ch3cl", "h2s", "c2h4", "hcl", "sih4", "co"]
@@ -159,10 +190,19 @@ def gen_cases(ctx: Ctx):
              "restart": [None, "previous", "perturbed"][i % 3]}
         c["perm"] = bool(k > 1 and c["restart"] is None)
         cases.append(("solver_pair", c))
+    # each differentiable-mode configuration against a plain one (quick: two of them)
+    bwc = ["fixed0_bw2", "fixed1_bw2", "fixed6_bw1", "adaptive_bw2", "pulay_bw1"]
+    for j in range(len(bwc) if ctx.thorough else 2):
+        cases.append(("solver_pair", {"names": [str(rng.choice(["h2o", "nh3", "ch2o", "hcn"]))], "method": methods[j % 4], "eps": float(rng.choice([1e-8, 1e-9])), "a": bwc[(j + 2 * ctx.seed) % len(bwc)] if not ctx.thorough else bwc[j],
+                                     "b": str(rng.choice(["adaptive", "pulay", "fixed3"])), "seed": int(rng.integers(0, 10**6)), "restart": None}))
     # both SP2 configurations on a mixed-size batch, second one on the reversed batch
     cases.append(("solver_pair", {"names": ["h2o", "ch2o", "c2h4"], "method": "AM1", "eps": 1e-9, "a": "adaptive_sp2", "b": "fixed_sp2", "seed": 1, "restart": None, "perm": True}))
     cases.append(("solver_pair", {"names": [str(rng.choice(["h2o", "nh3", "ch2o"]))], "method": str(rng.choice(["AM1", "PM3"])), "eps": float(rng.choice([1e-8, 1e-9])), "a": "ksa", "b": "adaptive", "seed": 1, "restart": None}))
     cases.append(("sp2_ladder", {"names": [str(rng.choice(pool))], "method": str(rng.choice(methods)), "converger": [[1], [2], [0, 0.2]][ctx.seed % 3]}))
+    grid = [("ch4", "AM1"), ("ch2o", "PM3"), ("c2h4", "AM1"), ("so2", "PM3"), ("ch4_dimer", "AM1"), ("ch3cl", "PM3"), ("sih4", "AM1"), ("hcn", "MNDO")]
+    for j in range(len(grid) if ctx.thorough else 3):
+        nm, meth = grid[(j + 3 * ctx.seed) % len(grid)] if not ctx.thorough else grid[j]
+        cases.append(("sp2_vs_diag", {"name": nm, "method": meth, "tols": [1e-5, 1e-6, 1e-7], "converger": [[1], [2], [0, 0.2]][j % 3]}))
     for i in range(4 if ctx.thorough else 1):
         cases.append(("tightening", {"names": [str(rng.choice(pool))], "method": methods[i % 4], "cfg": ["adaptive", "pulay", "fixed3", "adaptive_sp2"][i % 4]}))
     return cases
